@@ -368,7 +368,19 @@ def gen_tree_price(rng, T, kind=None):
   return ('matrix', [[dy(rng, -2, 3, 2) for _ in range(n)] for _ in range(R)])
 
 
-def py_price(p):
+def py_price(p, form='nd'):
+  """The Python object in which a price is handed over: 'nd' float / float ndarray; 'list' float / (nested) list of floats;
+  'int' Python int / integer ndarray and 'intlist' Python int / (nested) list of Python ints (whole-number prices only, else as 'nd')."""
+  def whole(v):
+    return all(whole(x) for x in v) if isinstance(v, (list, tuple)) else F(v).denominator == 1
+  def ints(v):
+    return [ints(x) for x in v] if isinstance(v, (list, tuple)) else int(F(v))
+  if form in ('int', 'intlist') and whole(p[1]):
+    if p[0] == 'scalar':
+      return int(F(p[1]))
+    return np.array(ints(p[1]), dtype=int) if form == 'int' else ints(p[1])
+  if form == 'list' and p[0] != 'scalar':
+    return [list(r) for r in fl(p[1])] if p[0] == 'matrix' else list(fl(p[1]))
   return float(p[1]) if p[0] == 'scalar' else np.array(fl(p[1]))
 
 
